@@ -26,7 +26,7 @@ pub const ASSUMPTIONS: &[&str] = &[
     "caller threads are real OS threads, so thread_local!, LazyLock and std locks behave as in a user's program; only the choice of who runs is simulated",
     "yield points: every intercepted libc call (getcwd, statx, open, read, close, ...) and the 24 cfg-guarded hook sites in /repo (build entry, between passes, every parsed line, every pass-1/pass-2 item, macro expansion, .device, every symbol-table accessor - i.e. inside expression evaluation); in the function-entry build of the harness (nightly, -Zinstrument-mcount on the code under test only) additionally about every k-th function entry of avra_lib and its helper crates, k seeded per thread",
     "a token holder that blocks on a foreign lock for 2 s of wall time loses the token to the lowest-numbered parked thread; wall time decides when this is noticed, never who runs",
-    "the build hit by an injected fault is exempt (engine inctree judges it); every other build of the episode is judged",
+    "the build hit by an injected hard fault is exempt (engine inctree judges it); every other build of the episode - also one whose read was cut short, which is legal kernel behaviour - is judged",
     "corpus entries on which today's code panics (about 1 in 25: a register number out of range, a number above 64 bits, a missing operand) stay in: the panic payload is their result, compared like an error text; entries whose reference process crashes or hangs are excluded and counted",
 ];
 
@@ -267,7 +267,8 @@ pub fn mb_run(input: &str) -> i32 {
                         Some(e) => e.clone(),
                         None => continue,
                     };
-                    let faulted = !op.rules.is_empty();
+                    // a short read is legal kernel behaviour and changes nothing: such a build is judged
+                    let faulted = op.rules.iter().any(|r| !(r.call == "read" && (r.action == "limit" || r.action == "shortby")));
                     let invoke = simlibc::bypass(|| {
                         // this operation's fault rules, scoped to this thread
                         let rules: Vec<simlibc::Rule> = op
@@ -758,6 +759,9 @@ pub fn gen_episode(c: &Corpus, seed: u64, fn_available: bool) -> Scenario {
                         let rule = if call == "open" {
                             let e = ["ENOENT", "EACCES", "EMFILE", "EIO"][r.usize(4)];
                             RuleSpec::errno("open", path, nth, e, if e == "ENOENT" { "vanish" } else { "open-fail" })
+                        } else if r.chance(1, 3) {
+                            // the kernel hands over fewer bytes than asked for: nothing may change
+                            RuleSpec::limit("read", path, nth, [1usize, 7, 64][r.usize(3)], "read-short")
                         } else {
                             RuleSpec::errno("read", path, nth, "EIO", "read-fail")
                         };
@@ -960,7 +964,7 @@ pub fn worker(cfg: &WorkerCfg, emit: &mut dyn FnMut(Violation)) -> Stats {
         stats.steps += out.steps;
         stats.count("builds", out.results.len() as u64);
         for f in &out.fired {
-            let kind = if f.contains(" open ") { if f.ends_with("ENOENT") { "vanish" } else { "open-fail" } } else { "read-fail" };
+            let kind = if f.contains(" open ") { if f.ends_with("ENOENT") { "vanish" } else { "open-fail" } } else if f.ends_with(" EIO") { "read-fail" } else { "read-short" };
             stats.fired(kind);
         }
         if !out.fired.is_empty() {
